@@ -251,3 +251,35 @@ def _(self: "ElectronicControlUnit"):
     # the thread sleeps only for a positive time that ends no later than the earliest deadline it computed
     # (clock: the latest time reading or call-out return - real time never runs behind it)
     callout_check("C12.sleep", implies(ev.fn == fn("queue.Queue.get"), ev.r2 > 0 and ev.r2 <= next_wakeup - clock))
+
+
+# ------------------------------------------------------------------ BOUNDED stand-ins (never counted as proved)
+# The two removal functions above are verified for lists of any length through loop invariants, which are tied to the shape of
+# the loop (iteration over a snapshot).  If the loop is rewritten the invariants no longer apply; these variants decide the same
+# postconditions without invariants, by unrolling, for lists of at most 3 registrations (stated bound).
+
+@unit("j1939.electronic_control_unit:ElectronicControlUnit.remove_timer", variant="bounded", bounded="at most 3 registrations", props=["C12"])
+def _(self: "ElectronicControlUnit", callback: "func"):
+    requires(inv_ecu(self), len(self._timer_events) <= 3)
+    opaque("ElectronicControlUnit._job_thread_wakeup")
+    let("n", len(self._timer_events))
+    ensures("C12.remove.none_left.bounded", forall(lambda p: self._timer_events[p]['callback'] != callback, 0, len(self._timer_events)))
+    ensures("C12.remove_all.bounded",
+            len(self._timer_events) == ite(0 < n and old(self._timer_events[0]['callback']) != callback, 1, 0)
+            + ite(1 < n and old(self._timer_events[1]['callback']) != callback, 1, 0)
+            + ite(2 < n and old(self._timer_events[2]['callback']) != callback, 1, 0),
+            forall(lambda j: implies(old(self._timer_events[j]['callback']) != callback,
+                                     exists(lambda q: self._timer_events[q] == old(self._timer_events[j]), 0, len(self._timer_events))), 0, n))
+
+
+@unit("j1939.electronic_control_unit:ElectronicControlUnit.unsubscribe", variant="bounded", bounded="at most 3 registrations", props=["C12"])
+def _(self: "ElectronicControlUnit", callback: "func"):
+    requires(inv_ecu(self), len(self._subscribers) <= 3)
+    let("n", len(self._subscribers))
+    ensures("C12.unsub.none_left.bounded", forall(lambda p: self._subscribers[p]['cb'] != callback, 0, len(self._subscribers)))
+    ensures("C12.unsub_all.bounded",
+            len(self._subscribers) == ite(0 < n and old(self._subscribers[0]['cb']) != callback, 1, 0)
+            + ite(1 < n and old(self._subscribers[1]['cb']) != callback, 1, 0)
+            + ite(2 < n and old(self._subscribers[2]['cb']) != callback, 1, 0),
+            forall(lambda j: implies(old(self._subscribers[j]['cb']) != callback,
+                                     exists(lambda q: self._subscribers[q] == old(self._subscribers[j]), 0, len(self._subscribers))), 0, n))
